@@ -267,7 +267,9 @@ EXTRA = {
     "C03": "Also shares the ingestion rules of C07 (identity, first alternate location, every record appended, reader stops only at end of "
            "file, pending residue flushed, only further models left out), patch isolation, the ligand block on a model complex (every "
            "ligand atom printed once, lists partition) and 'hydrogens are stripped only from residue classes that get them rebuilt'; "
-           "loop exits of add_hydrogens are decided on canonical guard sets (closed reasons or warned).",
+           "loop exits of add_hydrogens are decided on canonical guard sets (closed reasons or warned); the conditions under which "
+           "optimize_hydrogens finalises an object and opens a network are compared as truth tables, whatever the nesting of the tests; "
+           "Biomolecule.__init__ is decided by " + MODEL + " on six record lists.",
     "C04": "The selection procedure is evaluated on the topology model whatever its code shape and must be history free (a memo is reset "
            "by every membership mutator); Flip caches exactly the atoms its rotation moves at every chain position; no statement turns "
            "args.debump/args.opt on.",
@@ -277,20 +279,25 @@ EXTRA = {
     "C06": "Also: pKa and pH reach the comparison unmodified; rows of different titratable groups never share a key of the pKa table; "
            "patch isolation.",
     "C07": "Also: every ATOM/HETATM record read is appended to a residue; the record type is decided by the record-name columns; the "
-           "name tested for 'already present' is the name the atom is filed under.",
+           "name tested for 'already present' is the name the atom is filed under. The record classes, read_atom, drop_water and "
+           "Biomolecule.__init__ are decided by " + MODEL + " on model lines and record lists.",
     "C08": "Also: every print site forwards --keep-chain; pdb2pqr's own reader (read_pqr/from_pqr_line) is decided by " + MODEL + " on one "
-           "line per layout the writer emits.",
+           "line per layout the writer emits (lines formatted by the writer's own code); the precision of each numeric field is read from "
+           "the path layouts, however the line is assembled (concatenation, join, helper).",
     "C09": "Also: waters are removed iff --drop-water; numeric fields occupy one fixed column span on all formatter paths; a formatting "
            "flag may only select strings (a flag-controlled local must be a string being built); --neutraln/--neutralc are decided by "
-           "evaluating assign_termini on every chain shape with the flag off and on.",
+           "evaluating assign_termini on every chain shape with the flag off and on; check_options is decided by " + MODEL + " on 45 "
+           "namespaces (option x force-field spelling x pH).",
     "C10": "Also: every atom_site row is visited; `a or b` is forked like a conditional expression by the layout engine; models are handed "
-           "on in order of first appearance (count_models on model rows).",
+           "on in order of first appearance (count_models on model rows); get_molecule is decided by " + MODEL + " on 13 paths (suffix "
+           "in any letter case, suffix-like directory and stem) with and without reader errors.",
     "C11": "Also: mutations through a local alias of a shared object; a list extended by a set; positive controls for both.",
     "C12": "Also: the integrality guard is a must-pass after every parameter assignment; patch isolation; calls inside the output block "
            "are judged by their resolved raise sets; the 'remember the failure, raise later' handler idiom is recognised structurally. "
            "Which inputs are too incomplete to repair is not decided (seed C12-c).",
     "C13": "Also: update_ss_bridges is decided by " + MODEL + " on a structure with a bridge across chains, a partner the input labels "
-           "CYX, free/SG-less/thiolate cysteines and a pair just beyond the limit, in two residue orders; bridged cells are full and "
+           "CYX, free/SG-less/thiolate cysteines, a pair just beyond the limit and bridged pairs straddling a whole grid cell of every "
+           "spacing below the limit along each axis, in two residue orders; bridged cells are full and "
            "neutral at every chain position in every force field that defines them; neighbour-query variants need cell size >= limit.",
     "C14": "Also: add_cell/remove_cell/get_near_cells are decided by " + MODEL + " on 72 atoms around cell boundaries, zero and far out, "
            "for every size in use, before and after 25 bracketed moves; every fixed cutoff applied to query results is at most the cell "
@@ -301,7 +308,9 @@ EXTRA = {
            "snap window folds to less than 0.05 degree. The Jacobi sweep cap is not decided.",
     "C16": "Also: per-cycle updates from start-of-cycle charges only; first of equivalent atoms; the ligand block on a model complex (a "
            "ligand atom also known to the force field, a water with ligand-like hydrogen names, an ion after the ligand): each ligand "
-           "atom printed once with the MOL2 values, nothing else touched; hydrogens are stripped only where they are rebuilt.",
+           "atom printed once with the MOL2 values, nothing else touched; hydrogens are stripped only where they are rebuilt. Formal "
+           "charges and their sum are decided by " + MODEL + " on ethanol, acetate and methyl phosphate in three bond listings; "
+           "assign_radius on five table probes (type hit, element fallback, secondary table, miss raises).",
     "C17": "Running extrema decided semantically; Psize (parse_lines .. __str__) is decided by " + MODEL + " on a one-atom file, spread atoms "
            "and a system above the memory ceiling: extrema, charge, counts, enclosure, multigrid-legal counts, the memory figure of the "
            "report and the per-processor grid.",
@@ -313,7 +322,8 @@ for _k, _v in EXTRA.items():
     META[_k]["text"] += " " + _v
     if "constant propagation through the method bodies" in _v or "symbolic evaluation" in _v:
         META[_k]["technique"] += "; model evaluation by the checker's own interpreter (constant/symbol propagation through method bodies on object models)"
-TRUST_ALPHA = ("Before analysis every module is desugared and its locals are renamed towards the reference naming (alpha-equivalent "
-               "program, sa/alpha.py); renamings applied are listed in the evidence. ")
+TRUST_ALPHA = ("Before analysis every module is desugared, its locals are renamed towards the reference naming and functions that are new, "
+               "single-use and never taken as a value are inlined at their call (equivalent program, sa/alpha.py); renamings and inlinings "
+               "applied are listed in the evidence. ")
 for _k in META:
     META[_k]["note"] = META[_k].get("note", "") + TRUST_ALPHA
